@@ -35,6 +35,12 @@ def run(ck, F):
     B = M.Body(fb)
     # the field list being filled: the `&mut Vec<Field>` parameter
     flp = [l for l in range(1, B.arg_count + 1) if "Vec<model::field::Field>" in B.local_ty(l)]
+    # .. or the collector struct that carries it (`&mut self` of a method of the collector)
+    HOLDER_FIELD = None
+    if not flp:
+        hp = [(l, A.holder_of(F, B.local_ty(l))) for l in range(1, B.arg_count + 1) if A.holder_of(F, B.local_ty(l))]
+        if len(hp) == 1:
+            flp, HOLDER_FIELD = [hp[0][0]], hp[0][1][1]
     returns_list = "Vec<model::field::Field>" in B.local_ty(0)
     if len(flp) != 1 and not (not flp and returns_list):
         ck.undecided("R1", "anchor", fb["span"], "the extension importer neither has exactly one Vec<Field> parameter nor returns the field list")
@@ -64,6 +70,9 @@ def run(ck, F):
     def is_field_list(os_, op):
         """the operand is the field list being filled: the `&mut Vec<Field>` parameter, or (when the function returns the list) a
         local Vec<Field> of its own"""
+        if FL is not None and HOLDER_FIELD is not None:
+            # the list inside the collector, or the collector as a whole (handed on to another of its methods)
+            return bool(os_) and all(o.kind == "arg" and o.local == FL and o.fields() in ([], [HOLDER_FIELD]) for o in os_)
         if FL is not None:
             return bool(os_) and all(o.kind == "arg" and o.local == FL for o in os_)
         r = _root_local(op)
